@@ -469,6 +469,13 @@ class DataGen:
             items = []
             for f in s["fields"]:
                 if "default" in f and omittable(f["type"], self.named) and rng.random() < 0.4:
+                    if f.get("aliases") and rng.random() < 0.6:
+                        # the field is omitted, but the datum carries a key spelled like one of the field's ALIASES
+                        # (aliases are for schema resolution only: the writer must ignore the key and write the default)
+                        try:
+                            items.append((f["aliases"][0], self.datum(f["type"], depth + 1)))
+                        except TooDeep:
+                            pass
                     continue
                 items.append((f["name"], self.datum(f["type"], depth + 1)))
             if rng.random() < 0.3:
